@@ -35,7 +35,7 @@ SHRINK = {'C03': (60, 25), 'C02': (60, 40)}
 WALL_LIMIT = {('C03', 'quick'): 240, ('C03', 'thorough'): 3000, ('C02', 'quick'): 240, ('C02', 'thorough'): 240}      # one re-execution = ~20 forked crawls
 PROBES = {'C03': ['kill_points_total', 'kill_at_sql', 'kill_at_commit', 'kill_at_request', 'kill_at_delivery', 'kill_before_first_request',
                   'kill_with_in_progress_rows', 'kill_between_status_and_children', 'second_kill', 'resumed_runs', 'concurrency>1',
-                  'workload_fully_enumerated', 'run2_refetch_of_in_progress', 'database_uri', 'sitemaps', 'sitemaps_skipped_start', 'ftp_crawl', 'transient_errors', 'kill_with_error_rows', 'many_input_urls', 'kill_during_input_import', 'small_tries', 'depth_limited']}
+                  'workload_fully_enumerated', 'run2_refetch_of_in_progress', 'database_uri', 'sitemaps', 'sitemaps_skipped_start', 'ftp_crawl', 'transient_errors', 'kill_with_error_rows', 'many_input_urls', 'input_file_option', 'kill_during_input_import', 'small_tries', 'depth_limited']}
 INFO = {'C03': {
     'rule': 'workload = generated site graph (as C01, depth unlimited) x concurrency 1..3 x schedule; per workload the kill instants '
             '(every SQL statement boundary, every commit boundary, every server request, every delivered segment) are enumerated '
@@ -308,6 +308,17 @@ def run(tape, prop, tier):
             os.makedirs(d, exist_ok=True)
             return d
 
+        n_inputs = len(argv_urls)
+        if prop == 'C03' and not ftp and tape.chance(1, 5, 'input_file'):
+            # the same start URLs given through --input-file (another start-up path: the file is read and imported again by the rerun)
+            inputs = os.path.join(base, 'inputs.txt')
+            with open(inputs, 'w') as fh:
+                fh.write(''.join(u + '\n' for u in argv_urls))
+            opts = dict(opts, input_file=inputs)
+            n_inputs = len(argv_urls)
+            argv_urls = []
+            r.probes['input_file_option'] += 1
+
         # a schedule = a recorded tape: run 0 generates it (seeded), the killed runs replay it
         sb0 = sandbox_for('run0')
         db0 = os.path.join(sb0, 'db.sqlite')
@@ -345,12 +356,12 @@ def run(tape, prop, tier):
             positions = sorted({1 + (x % N) for x in ksel[:3]} | {first_req + (ksel[5] % max(1, N - first_req))} |
                                {min(N, _after_nth_commit(kinds, ksel[6]))} | {min(N, _after_nth_commit(kinds, ksel[7]) + 1)} |
                                {min(N, _after_nth_commit(kinds, x) + (x >> 8) % 2) for x in ksel_commit})
-        if len(argv_urls) > 100 and tier != 'thorough' and prop == 'C03':
+        if n_inputs > 100 and tier != 'thorough' and prop == 'C03':
             # the import of the input URLs happens before the first request: put kills at its commit boundaries
             early = [i + 1 for i, kk in enumerate(kinds[:first_req]) if kk == 'commit']
             positions = sorted(set(positions) | set(early[-8:]) | {min(N, x + 1) for x in early[-8:]})
             r.probes['kill_during_input_import'] += len([x for x in positions if x < first_req])
-        workload = {'options': {k: v for k, v in opts.items() if v not in (None, False, ())}, 'starts': [s.url for s in starts], 'input_urls': len(argv_urls),
+        workload = {'options': {k: v for k, v in opts.items() if v not in (None, False, ())}, 'starts': [s.url for s in starts], 'input_urls': n_inputs,
                     'concurrency': concurrency, 'instants': N, 'positions': positions if tier != 'thorough' else 'all',
                     'site': [(x.kind, x.url, [d.url for d, _ in x.links], [d.url for d, _, _ in x.inlines]) for x in site.order]}
         if ftp:
